@@ -22,7 +22,7 @@ from dv.evidence import Recorder, finish
 
 PID = "C15"
 RULE = ("configurations = (messages per queueing thread for 1..3 threads on 1..2 connections, 2..6 messages in total, write plan "
-        "of partial accepts 1..n bytes and soft errors EAGAIN/EINTR/ENOBUFS, optional unencodable message) x "
+        "of partial accepts 1..n bytes and soft errors EAGAIN/EINTR/ENOBUFS, optional unencodable message: wrong attribute type / a non-AVP object in the AVP list / header field out of range) x "
         "every schedule with <= 2 deviations (quick) / <= 3 (thorough, base configuration) - a deviation is "
         "a preemption at a line or call of work_write_queue / add_out_msg / remove_out_bytes / "
         "demand_attention / send_message / the write branch of _handle_connections / the AVP loop of Message.as_bytes, or a non-default "
@@ -45,6 +45,8 @@ CONFIGS = [
     {"name": "2threads-2each", "threads": [2, 2], "plan": [7, 64, 3], "bad": None},
     {"name": "3threads", "threads": [1, 2, 1], "plan": [50, 50], "bad": 2},
     {"name": "6msgs", "threads": [3, 3], "plan": [100, ["soft", errno.EAGAIN], 1, 200], "bad": None},
+    {"name": "3msgs-one-unencodable/none-in-avp-list", "threads": [3], "plan": [33], "bad": 1, "bad_kind": "none-in-avp-list"},
+    {"name": "3msgs-one-unencodable/header-out-of-range", "threads": [2, 1], "plan": [50], "bad": 0, "bad_kind": "header-out-of-range"},
     # two connections: their writers encode at the same time (queueing thread i serves connection i % 2)
     {"name": "2conns-1each", "threads": [1, 1], "plan": [40], "bad": None, "conns": 2},
     {"name": "2conns-2each", "threads": [2, 2], "plan": [9, ["soft", errno.EAGAIN], 120], "bad": None, "conns": 2},
@@ -95,7 +97,14 @@ def run_schedule(cfg, decisions=None, rng=None, p=0.0, maxr=0):
                 m.origin_host = b"node.example"
                 m.origin_realm = b"example" + bytes([0x61 + k]) * (k * 3)      # different lengths
                 if cfg["bad"] == k:
-                    m.origin_state_id = "not-an-integer"                       # cannot be encoded
+                    # cannot be encoded: by a codec error, or by any other failure inside as_bytes()
+                    kind_ = cfg.get("bad_kind", "attr-type")
+                    if kind_ == "attr-type":
+                        m.origin_state_id = "not-an-integer"                   # AvpEncodeError
+                    elif kind_ == "none-in-avp-list":
+                        m.append_avp(None)                                     # AttributeError
+                    elif kind_ == "header-out-of-range":
+                        m.header.end_to_end_identifier = 1 << 32               # ConversionError
                     expect[id(m)] = None
                 else:
                     expect[id(m)] = m.as_bytes()
@@ -156,7 +165,7 @@ def shard_main(shard, nshards, tier, scale):
         if thorough:
             bound = 3 if ci == 0 else 2
         else:
-            bound = 2 if ci < 5 or ci == 8 else 1
+            bound = 2 if ci < 5 or cfg["name"] == "2conns-1each" else 1
         holder = {}
 
         def run_one(dec, cfg=cfg):
@@ -197,7 +206,8 @@ def run(tier, scale=1.0):
     for d in hyp.pool_run(shard_main, (tier, scale)):
         rec.merge(d)
     required = {"deviations:2": 1, "random": 1, "cfg:3threads": 1, "cfg:6msgs": 1, "cfg:2msgs-soft-errors": 1,
-                "cfg:3msgs-one-unencodable": 1, "cfg:2conns-1each": 1, "cfg:2conns-2each": 1}
+                "cfg:3msgs-one-unencodable": 1, "cfg:2conns-1each": 1, "cfg:2conns-2each": 1, "cfg:3msgs-one-unencodable/none-in-avp-list": 1,
+                "cfg:3msgs-one-unencodable/header-out-of-range": 1}
     return finish(rec, tier=tier, level="exploration", rule=RULE, assumptions=ASSUME, t0=t0, exhaustive=True,
                   required_classes=required,
                   extra_cov={"exhaustive_part": "all schedules within the deviation bound for every listed configuration"})
